@@ -120,36 +120,61 @@ Proof.
   apply N.mod_lt. apply N.pow_nonzero. lia.
 Qed.
 
-(* ReadSigned(n) of the n low bits of uint(z) gives z back, for z in the two's complement range *)
+(* ReadSigned(n) of the n low bits of uint(z) gives z back, for z in the two's complement range.
+   The arithmetic is split into small lemmas on abstract quantities: an earlier single proof ran
+   `lia` with the 64-bit constant of z_to_u64 in context (through `set` bodies); its witnesses
+   are VM casts, which coqchk re-checks with the plain reduction machine: 6 min 52 s / 43 GB for
+   this one lemma.  Now 1 s / 0.12 GB. *)
+Lemma pow2_half n : (1 <= n)%nat -> (2 ^ Z.of_nat n = 2 * 2 ^ (Z.of_nat n - 1))%Z.
+Proof. intros H. rewrite <- Z.pow_succ_r by lia. f_equal. lia. Qed.
+
+Lemma of_N_pow2_pred n : (1 <= n)%nat -> Z.of_N (2 ^ N.of_nat (n - 1)) = (2 ^ (Z.of_nat n - 1))%Z.
+Proof. intros H. rewrite N2Z.inj_pow, nat_N_Z. f_equal. lia. Qed.
+
+(* the n low bits of uint(z) (two's complement in 64 bits) are z mod 2^n *)
+Lemma u64_low_bits n z :
+  (n <= 64)%nat -> Z.of_N (z_to_u64 z mod 2 ^ N.of_nat n) = (z mod 2 ^ Z.of_nat n)%Z.
+Proof.
+  intros Hn. unfold z_to_u64. rewrite N2Z.inj_mod, N2Z.inj_pow, nat_N_Z.
+  rewrite Z2N.id by (apply Z.mod_pos_bound; apply Z.pow_pos_nonneg; lia).
+  change (Z.of_N 2) with 2%Z.
+  symmetry. apply Znumtheory.Zmod_div_mod.
+  - apply Z.pow_pos_nonneg; lia.
+  - apply Z.pow_pos_nonneg; lia.
+  - exists (2 ^ (64 - Z.of_nat n))%Z.
+    rewrite <- Z.pow_add_r by lia. f_equal. lia.
+Qed.
+
+(* sign extension on abstract quantities: no power, no 64-bit constant in sight *)
+Lemma signed_core (v h : N) (z P : Z) :
+  (0 < P)%Z -> Z.of_N v = (z mod (2 * P))%Z -> Z.of_N h = P -> (- P <= z < P)%Z ->
+  (if (v / h) mod 2 =? 1 then (Z.of_N v - 2 * P)%Z else Z.of_N v) = z.
+Proof.
+  intros HP Hv Hh Hz.
+  destruct (Z_lt_le_dec z 0) as [Hneg|Hpos].
+  - assert (E : (z mod (2 * P) = z + 2 * P)%Z).
+    { rewrite <- (Z_mod_plus_full z 1 (2 * P)). rewrite Z.mul_1_l. apply Z.mod_small. lia. }
+    rewrite E in Hv. clear E.
+    assert (D : v / h = 1).
+    { symmetry. apply (N.div_unique v _ 1 (v - h)); lia. }
+    rewrite D. change (1 mod 2 =? 1) with true. cbv iota. lia.
+  - assert (E : (z mod (2 * P) = z)%Z) by (apply Z.mod_small; lia).
+    rewrite E in Hv. clear E.
+    assert (D : v / h = 0) by (apply N.div_small; lia).
+    rewrite D. change (0 mod 2 =? 1) with false. cbv iota. lia.
+Qed.
+
 Lemma rd_signed_bits n z rest :
   (1 <= n <= 64)%nat ->
   (- 2 ^ (Z.of_nat n - 1) <= z < 2 ^ (Z.of_nat n - 1))%Z ->
   rd_signed n (bits_of n (z_to_u64 z) ++ rest) = Ok (z, rest).
 Proof.
   intros Hn Hz. unfold rd_signed. rewrite rd_bits_mod. cbn [rbind].
-  set (v := z_to_u64 z mod 2 ^ N.of_nat n).
-  set (P := (2 ^ (Z.of_nat n - 1))%Z) in *.
-  assert (HP : (0 < P)%Z) by (apply Z.pow_pos_nonneg; lia).
-  assert (HM : (2 ^ Z.of_nat n = 2 * P)%Z).
-  { unfold P. rewrite <- Z.pow_succ_r by lia. f_equal. lia. }
-  assert (Hv : Z.of_N v = (z mod (2 * P))%Z).
-  { unfold v, z_to_u64. rewrite N2Z.inj_mod, N2Z.inj_pow, nat_N_Z.
-    rewrite Z2N.id by (apply Z.mod_pos_bound; reflexivity).
-    change (Z.of_N 2) with 2%Z. rewrite HM.
-    symmetry. apply Znumtheory.Zmod_div_mod; [lia|reflexivity|].
-    rewrite <- HM. exists (2 ^ (64 - Z.of_nat n))%Z.
-    rewrite <- Z.pow_add_r by lia. f_equal. lia. }
-  assert (HPN : Z.of_N (2 ^ N.of_nat (n - 1)) = P).
-  { rewrite N2Z.inj_pow, nat_N_Z. unfold P. f_equal. lia. }
   rewrite N.testbit_eqb.
-  destruct (Z_lt_le_dec z 0) as [Hneg|Hpos].
-  - assert (E : (z mod (2 * P) = z + 2 * P)%Z).
-    { rewrite <- (Z_mod_plus_full z 1 (2 * P)). rewrite Z.mul_1_l. apply Z.mod_small. lia. }
-    assert (D : v / 2 ^ N.of_nat (n - 1) = 1).
-    { symmetry. apply (N.div_unique v _ 1 (v - 2 ^ N.of_nat (n - 1))); lia. }
-    rewrite D. cbn [N.modulo N.div_eucl N.eqb Pos.eqb]. change (1 mod 2 =? 1) with true. cbv iota.
-    f_equal. f_equal. lia.
-  - assert (E : (z mod (2 * P) = z)%Z) by (apply Z.mod_small; lia).
-    assert (D : v / 2 ^ N.of_nat (n - 1) = 0) by (apply N.div_small; lia).
-    rewrite D. change (0 mod 2 =? 1) with false. cbv iota. f_equal. f_equal. lia.
+  pose proof (u64_low_bits n z (proj2 Hn)) as Hv.
+  pose proof (of_N_pow2_pred n (proj1 Hn)) as Hh.
+  rewrite (pow2_half n (proj1 Hn)) in *.
+  assert (HP : (0 < 2 ^ (Z.of_nat n - 1))%Z) by (apply Z.pow_pos_nonneg; lia).
+  f_equal. f_equal.
+  exact (signed_core _ _ _ _ HP Hv Hh Hz).
 Qed.
